@@ -272,3 +272,23 @@ def reuse_in_place(sym, ti):
     got = enc.encode(x=X, a=A)
     ref = InteractionsEncoder(terms).encode(x=X, a=A)
     sym.check(_same(sym, got, ref), f"second call (same objects, content changed in place) differs from a fresh encoder on the new content :: terms={terms}", model=witness)
+
+# ---------------------------------------------------------------------------------------------------
+@obligation('C20','long_vectors', bounds="terms ['x','xa'] on the mapping path: x a list of L in {1023,1024,1025,2050} non-zero values of which the first and the last are symbolic integers, a = {'k': symbolic}; "
+            "the result == the result for the same data given as a mapping {'0':..,'1':..} (every positional feature is present, whatever its position)",
+            functions=FUNCS, classify=classify, params=lambda tier: [dict(L=L) for L in (1023,1024,1025,2050)])
+def long_vectors(sym, L):
+    terms = ['x','xa']
+    x = [sym.int('x0')] + [2+(i % 7) for i in range(1, L-1)] + [sym.int('xl')]
+    a = {'k': sym.int('a0')}
+    sym.assume((x[0] != 0) & (x[-1] != 0) & (a['k'] != 0))
+    witness = {'x0': 11, 'xl': 13, 'a0': 17}
+    got = InteractionsEncoder(terms).encode(x=list(x), a=dict(a))
+    ref = InteractionsEncoder(terms).encode(x={str(i): v for i,v in enumerate(x)}, a=dict(a))
+    if not isinstance(got, dict): sym.fail(f"a namespace given as a mapping must give a mapping, got {type(got).__name__} :: terms={terms}", model=witness)
+    missing = [k for k in ref if k not in got]; extra = [k for k in got if k not in ref]
+    if missing or extra: sym.fail(f"long vector: {len(missing)} monomials missing (e.g. {missing[:2]}), {len(extra)} unexpected :: terms={terms} L={L}", model=witness)
+    sym.check(len(ref) == 2*L, f"reference has {len(ref)} monomials for 2*{L}")
+    for k in (f'x0', f'x{L-1}', f'x{L//2}'):
+        for kk in [q for q in ref if q.startswith(k) and (q == k or not q[len(k)].isdigit())]:
+            sym.check(got[kk] == ref[kk], f"long vector: monomial {kk} differs :: terms={terms} L={L}", model=witness)
